@@ -7,6 +7,7 @@ from symx.harness import Harness
 from symx import core
 from symx.core import sym_and, sym_or, sym_not
 from ref import relocspec as RS
+from symx.seq import SymByteArray
 
 ARCHS = ["riscv", "riscv:rvc", "arm", "arm:thumb", "x86_64"]
 ADDR_BITS = {"riscv": 32, "riscv:rvc": 32, "arm": 32, "arm:thumb": 32, "x86_64": 48}
@@ -115,7 +116,8 @@ class RelocApplyHarness(Harness):
         rcls = arch.isa.relocation_map[self.reloc]
         r = rcls(None, offset=self.off, addend=i["A"])
         size = r.size()
-        data = bytearray(self.base[self.off:self.off + size])
+        data = list(self.base[self.off:self.off + size])
+        data = SymByteArray(data) if core.ENG is not None else bytearray(data)
         out = r.apply(i["S"], data, i["P"])
         return list(out)
 
